@@ -79,6 +79,17 @@ def gen_cases(rng, tier):
         if len(ents) >= 2:
           a_, b_ = rng.choice([(-1, -2), (-1.0, -2.0), (-2, -1)])
           ents[0][-1], ents[1][-1] = wrap_(a_), wrap_(b_)
+    if i % 9 == 4:
+      # trans() of a definition as an end potential of spline(): its shifted .deriv / .deriv2 feed the spline coefficients
+      for key in ("pair", "density", "embed"):
+        ents = m.get(key) or []
+        if ents:
+          spl = spec.gen_spline(rng, "potable")
+          side = rng.choice(["start", "end"])
+          if spl[side].get("k") != "trans":
+            spl[side] = {"k": "trans", "f": spl[side], "x": spec.rfloat(rng, 0.1, 1.0)}
+          ents[0][-1] = spl
+          break
     shared = 0
     if i % 5 == 3:
       shared = spec.share_leading_range(rng, m)
